@@ -7912,9 +7912,12 @@ class Parser:
             elif self._match(TokenType.SET):
                 self._match_set((TokenType.NULL, TokenType.DEFAULT))
                 action = "SET " + self._prev.text.upper()
-            else:
+            elif self._curr:
                 self._advance()
                 action = self._prev.text.upper()
+            else:
+                self.raise_error("Expected a referential action")
+                break
 
             on_options[kind] = action
 
